@@ -55,11 +55,12 @@ def expressible(p, callee_side=False):
     if p['vararg'] and nf - (1 if sret else 0) < 1:
         return None
     cts = []
+    cty = p.get('cty') or [None] * len(args)   # per argument: C type text overriding the menu (gen_c05_ctypes shapes)
     for i, a in enumerate(args):
         if i == 0 and sret:
             continue
         if G.is_blk(a):
-            d = struct_def(a)
+            d = cty[i] or struct_def(a)
             if d is None:
                 return None
             cts.append(d)
@@ -70,6 +71,10 @@ def expressible(p, callee_side=False):
     res = p['res']
     if sret:
         ret = sret
+    elif p.get('rcty'):   # aggregate result of 1 / 2 eightbytes with classes res (i64 = INTEGER, d = SSE), size rsize
+        if not 1 <= len(res) <= 2 or any(r not in ('i64', 'd') for r in res):
+            return None
+        ret = p['rcty']
     elif len(res) == 0:
         ret = 'void'
     elif len(res) == 1:
@@ -135,6 +140,8 @@ def gen_cfile(protos):
         res = p['res']
         if e['sret']:
             L.append('  R%d r; memset (&r, 0x5a, sizeof (r)); return r;' % k)
+        elif p.get('rcty'):
+            L += [l.replace('R r;', 'R%d r;' % k) for l in _ret_fill(p, e)]
         elif len(res) == 1:
             src = {'f': 16, 'd': 16, 'ld': 32}.get(res[0], 0)
             L.append('  R%d r; memcpy (&r, c05_ret + %d, sizeof (r)); return r;' % (k, src))
@@ -188,6 +195,15 @@ def _ret_fill(p, e):
     res = p['res']
     if e['sret']:
         return ['  R r; memset (&r, 0x5a, sizeof (r)); return r;']
+    if p.get('rcty'):   # eightbyte k of the object comes from the k-th preset register of its class
+        cnt = {'i': 0, 'x': 0}
+        L = ['  R r;']
+        for k, r in enumerate(res):
+            c = 'x' if r == 'd' else 'i'
+            L.append('  memcpy ((char *) &r + %d, c05_ret + %d, %d);' % (8 * k, {'i': [0, 8], 'x': [16, 24]}[c][cnt[c]],
+                                                                        min(8, p['rsize'] - 8 * k)))
+            cnt[c] += 1
+        return L + ['  return r;']
     if len(res) == 1:
         return ['  R r; memcpy (&r, c05_ret + %d, sizeof (r)); return r;' % {'f': 16, 'd': 16, 'ld': 32}.get(res[0], 0)]
     if len(res) == 2:
@@ -266,6 +282,13 @@ def c_result_bytes(p, rets):
            'l': [rets['st0'], rets['st1']]}
     cls = lambda t: 'x' if t in ('f', 'd') else 'l' if t == 'ld' else 'i'
     size = lambda t: {'i8': 1, 'u8': 1, 'i16': 2, 'u16': 2, 'i32': 4, 'u32': 4, 'f': 4, 'ld': 10}.get(t, 8)
+    if p.get('rcty'):
+        cnt = {'i': 0, 'x': 0}
+        out = []
+        for k, t in enumerate(res):
+            out.append((8 * k, reg[cls(t)][cnt[cls(t)]][:min(8, p['rsize'] - 8 * k)]))
+            cnt[cls(t)] += 1
+        return out
     if len(res) == 1:
         return [(0, reg[cls(res[0])][0][:size(res[0])])]
     if len(res) == 2 and 'ld' not in res:
